@@ -30,6 +30,7 @@ RULE = ("Generated histories: live objects are built once - 2-4 assets (contract
         "step. Non-trivial: the history contains >= 2 set-ups touching the same asset with different time zone or "
         "horizon, or a set-up after a serialise/reload, and no precondition error. Distinct = distinct spec hash.")
 RULE += (" A fix dictionary shared by all grids (date + solution vector longer than any problem), a rolled grid (same length, moved by 1-3 steps), capacities as the caller's float array, and compound operations set-up/optimise/extract whose tables are compared with those fresh objects give for the same solution vector.")
+RULE += (' Round 5: set-up of one asset with the grid set beforehand on all assets (timegrid left at its default); coarse assets with explicit windows inside every rolled grid; a rolling horizon updating the initial state of a unit by assignment; a min-load CHP whose on-variables depend on a price column that is zero on some grids; for about a quarter of the histories the last set-up is repeated in a pristine interpreter (state kept at module / class level is invisible to objects rebuilt in the same process).')
 ASSUMPTIONS = ["the fresh-object call defines the expected outcome, including expected exceptions for invalid combinations "
                "(e.g. zone-aware stamps on a naive grid)",
                "a rolling horizon updates the declared initial state of a plant / CHP (time already running, last dispatch, minimum runtime) by attribute assignment on the live object; the model follows the new parameters",
